@@ -27,6 +27,41 @@ NOT_APPLICABLE = {p: 'check under construction in this session; not claimed unti
                   for p in ['C%02d' % i for i in range(1, 21)]}
 
 PROPS = {
+    'C02': dict(
+        claimed=True,
+        level='fault_enumeration',
+        level_text="A generated first-generation history (C01 action set) is followed by an enumeration of stop points over the "
+                   "prefixes of its Persistence operation log (all of them when the log is short; otherwise a subset that always "
+                   "contains the points next to PUBREL saves and Deletes), each with the broker model's session as captured at "
+                   "the same instant (early and late variant). Every stop point is adopted by a fresh client: no fatal, no "
+                   "warning, exactly the obliged transfers on the first connection (identifier, order, stage, byte-exact), "
+                   "identifiers continue, and after 0-2 further stop/adopt generations and a drain every persisted message "
+                   "reached the broker model, exactly-once ones once. Crash points are enumerated per history; histories are sampled.",
+        technique='property-based testing (rapid) of histories with per-history enumeration of crash points; reference broker model and obligation model as oracle',
+        rule="history = C01 action set without park/loseTail, Max per level from {2,3,5,16,64,-1,20000}; stop points = prefixes "
+             "k >= 2 of the store log x broker-state variant {as of end of op k-1, as of start of op k}; 0-2 further "
+             "generations with drawn actions in between and a drawn stop point of the adopted client's own log (including "
+             "inside its recovery). Non-trivial: a stop point with >= 1 pending record; distinct = distinct canonical scripts "
+             "(history + stop-point summary). evaluations counts histories; the 'adoptions' label counts adopted stop points.",
+        assumptions=ASSUME_SIM + ["Persistence operations are atomic: a stop leaves a prefix of the operation log"],
+        exhaustive_note="stop points are enumerated completely per history when its log has <= 24 (quick) / 64 (thorough) operations; histories are sampled",
+        quick=dict(engines=[rapid('^TestC02', 240, steps=25)]),
+        thorough=dict(engines=[rapid('^TestC02', 6000, shards=14, steps=40, timeout=1500)]),
+    ),
+    'C03': dict(
+        claimed=True,
+        level='fault_enumeration',
+        level_text="As C02, restricted to exactly-once publishes: generated histories with connection, connect and Persistence faults, "
+                   "then every stop point of the store log with the broker model's 'awaiting PUBREL' set captured at the same "
+                   "instant; the broker model's delivery log decides 'forwarded once' at every step and after the final drain.",
+        technique='property-based testing (rapid) of histories with per-history enumeration of crash points; reference broker delivery log as oracle',
+        rule="as C02 with pub2 only. Non-trivial: a stop point with >= 1 pending exactly-once record; label "
+             "'exactly-once-handshake-interrupted-by-stop' counts histories where a stop fell between PUBREC release and PUBCOMP.",
+        assumptions=ASSUME_SIM + ["Persistence operations are atomic: a stop leaves a prefix of the operation log"],
+        exhaustive_note="stop points are enumerated completely per history when its log has <= 24 (quick) / 64 (thorough) operations; histories are sampled",
+        quick=dict(engines=[rapid('^TestC03', 240, steps=25)]),
+        thorough=dict(engines=[rapid('^TestC03', 6000, shards=14, steps=40, timeout=1500)]),
+    ),
     'C18': dict(
         claimed=True,
         level='exploration',
